@@ -164,9 +164,10 @@ func checkSequenceL(c seqCase) (fs []vf.Finding, labels []string) {
 // registration is a function of (name position, address): the first name never expires (address 0
 // registers it for 1000h, the others for 1h: an expiry much nearer than the record's refresh
 // interval is still ahead); the second name is registered 1h ahead by address 0 and 1h in the past
-// by the second address (a table may refuse that as invalid input) and for one nanosecond by the third
-// (expired at the next sweep as long as only those two registered it; once registrations with TTLs
-// pointing both ways have met on the record, what a sweep does with it is left open).
+// by the second address (a table may refuse that as invalid input; expired at the next sweep as long
+// as only that address registered it) and for one nanosecond by the third (a table may round a
+// time-to-live up to its granularity: what a sweep does with such a record is left open, as it is
+// once registrations with TTLs pointing both ways have met on a record).
 func alphabet(pair [2]int, ips []int) []op {
 	ttl := [2][]int{{3, 1, 1}, {1, 2, 4}}
 	var a []op
@@ -231,11 +232,11 @@ func TestSeqExhaustive(t *testing.T) {
 	s := vf.Begin(t, P, "seq-exhaustive")
 	s.SetExhaustive()
 	depth := vf.Size(4, 5)
-	pairs := [][2]int{{0, 1}, {5, 6}, {6, 7}, {6, 8}}
+	pairs := [][2]int{{0, 1}, {5, 6}, {6, 7}}
 	// other address triples: three distinct IPv6 owners; an IPv4 address, its IPv4-mapped 16-byte
 	// form (the same owner to net.IP.Equal) and an IPv6 address
 	otherIPs := [][]int{ipsV6, {0, 19, 16}}
-	s.Note("all sequences of length 1..%d over %d distinct calls (2 names x {Unique,Group} x 3 addresses, TTL by name and address) on an unsecured table; all of length 1..%d for both constructor values and %d name pairs (short names; 16-byte names differing only in the suffix byte, only in case, only in padding) and for %d further address triples (IPv6 owners; IPv4, IPv4-mapped and IPv6)", depth, len(alphabet(pairs[0], ipsV4)), depth-1, len(pairs), len(otherIPs))
+	s.Note("all sequences of length 1..%d over %d distinct calls (2 names x {Unique,Group} x 3 addresses, TTL by name and address) on an unsecured table; all of length 1..%d for both constructor values and %d name pairs (short names; 16-byte names differing only in the suffix byte, only in padding) and for %d further address triples (IPv6 owners; IPv4, IPv4-mapped and IPv6)", depth, len(alphabet(pairs[0], ipsV4)), depth-1, len(pairs), len(otherIPs))
 	vf.Enum(s, func(yield func(seqCase)) {
 		allSequences(alphabet(pairs[0], ipsV4), depth, func(ops []op) { yield(seqCase{Ops: ops, Scan: pairs[0][:]}) })
 		for i, p := range pairs {
@@ -284,9 +285,9 @@ func TestSeqRandom(t *testing.T) {
 	vf.Rapid(s, vf.N(5000, 80000), func(t *rapid.T) seqCase {
 		n := rapid.IntRange(20, 200).Draw(t, "len")
 		// 2..6 of the names (few names: long histories per name and large groups; the similar
-		// 16-byte names 5..8 are as likely as the short ones); three IPv4 addresses, the first six,
+		// 16-byte names 5..7 are as likely as the short ones); three IPv4 addresses, the first six,
 		// three IPv6 ones, a mix of IPv4 (both forms) and IPv6, or all addresses
-		all := rapid.Permutation([]int{0, 1, 2, 3, 4, 5, 6, 7, 8}).Draw(t, "names")
+		all := rapid.Permutation([]int{0, 1, 2, 3, 4, 5, 6, 7}).Draw(t, "names")
 		set := append([]int{}, all[:rapid.IntRange(2, 6).Draw(t, "nnames")]...)
 		sort.Ints(set)
 		ips := rapid.SampledFrom([][]int{ipsV4, ipsSix, ipsSix, ipsV6, ipsMixed, ipsAll}).Draw(t, "ips")
